@@ -31,6 +31,7 @@ func init() {
 			{"C13/who-authenticates", "SetAuthenticated(non-false) and SaveSessionIdentity call sites are the frozen set", c13WhoAuthenticates},
 			{"C13/state", "state keys: 16 bytes of crypto/rand (checked), default expiry, store expiry constant <= 2 min", c13State},
 			{"C13/verifier-config", "oidc.Config sets ClientID from configuration and no Skip* option; verifier from provider.Verifier", c13VerifierConfig},
+			{"C13/marshal-private", "the encoded identity handed to the session store lives in storage of the Marshal call (no package-level or pooled encode buffer the returned bytes alias)", c13MarshalPrivate},
 			{"C13/fresh-identity", "GetSessionIdentity returns an identity object of its own for every call (no shared, cached object)", c13FreshIdentity},
 			{"C13/store", "both session stores are built with both keys, behind len >= 32 guards", c13Store},
 			{"C13/default-keys", "the session keys substituted when none are configured are drawn symbol by symbol from crypto/rand (C18's generator rule)", func(c *Ctx) { c18CSPRNGAs(c, "C13/default-keys") }},
